@@ -338,8 +338,8 @@ func (s *Sim) NoSched(f func()) {
 
 // Park implements simhook.Scheduler.
 func (s *Sim) Park(label string) {
-	if s.stopped.Load() || s.bypass.Load() > 0 {
-		return
+	if s.stopped.Load() || s.bypass.Load() > 0 || s.free {
+		return // (free-running race mode has no scheduler to park with)
 	}
 	g := goid()
 	if g == s.rootG {
